@@ -16,8 +16,9 @@ MANIFEST = {
             "overdue (C19_popwait_returns, PARTIAL: real-time bounds of nanosleep/futex/pthread_cond_timedwait are outside "
             "the model). Tie: extracted models replayed against the real library under the virtual clock: 1..8 ULT/pthread "
             "timed/untimed waiters on one ABT_cond, exhaustive enqueue/signal/broadcast/timeout orders for small scopes + "
-            "seeded larger ones, locked white-box dump of the list after every action; pusher vs blocking pop for "
-            "FIFO/FIFO_WAIT/RANDWS.",
+            "seeded larger ones (incl. a signal landing between a waiter's clock read and its locked test), locked "
+            "white-box dump of the list after every action; pusher / other consumer / clock vs blocking pop for "
+            "FIFO/FIFO_WAIT/RANDWS and the basic_wait scheduler sitting in pop_wait.",
     "note": "Trusted: Coq kernel, extraction, the hand-written models (validated by the differential harness, not verified "
             "against the C text), the ABT_VERIF virtual-clock hook (ABTI_get_wtime, 0.5 ms futex re-check), gcc/glibc/futex. "
             "Modelled not verified: lock-protected sections are single steps; memory model SC; the ULT suspend/resume and "
